@@ -14,7 +14,6 @@ Bounds entries are None (class default), [lo, hi] or "fixed".
 """
 import os
 import traceback
-from math import comb
 
 import numpy as np
 from hypothesis import strategies as st
